@@ -157,3 +157,47 @@ func verifH_C10_request_shapes() {
 	}
 	verifReach("end")
 }
+
+//verif:harness id=C10 tier=quick,thorough witness=end bounds="content-defined parameters that pass the real Parameter.Validate: location in {query,header,path,cookie} x media type in {application/json, text/plain} x media-type schema in {absent, string, integer, object, array with items, array without items, untyped} x one or two values drawn from {1, \"a\", abc, {\"a\":1}, [1], {, empty}; ValidateParameter with MultiError symbolic; assertion = no panic (selector-symbolic: concrete texts through the JSON contract model)"
+func verifH_C10_content_params() {
+	in := []string{"query", "header", "path", "cookie"}[verifChoose("in", 4)]
+	mtName := []string{"application/json", "text/plain"}[verifChoose("mt", 2)]
+	mt := &openapi3.MediaType{}
+	switch verifChoose("schema", 7) {
+	case 1:
+		mt.Schema = &openapi3.SchemaRef{Value: &openapi3.Schema{Type: &openapi3.Types{"string"}}}
+	case 2:
+		mt.Schema = &openapi3.SchemaRef{Value: &openapi3.Schema{Type: &openapi3.Types{"integer"}}}
+	case 3:
+		mt.Schema = &openapi3.SchemaRef{Value: &openapi3.Schema{Type: &openapi3.Types{"object"}}}
+	case 4:
+		mt.Schema = &openapi3.SchemaRef{Value: &openapi3.Schema{Type: &openapi3.Types{"array"}, Items: &openapi3.SchemaRef{Value: &openapi3.Schema{Type: &openapi3.Types{"integer"}}}}}
+	case 5:
+		mt.Schema = &openapi3.SchemaRef{Value: &openapi3.Schema{Type: &openapi3.Types{"array"}}}
+	case 6:
+		mt.Schema = &openapi3.SchemaRef{Value: &openapi3.Schema{}}
+	}
+	param := &openapi3.Parameter{Name: "p", In: in, Required: in == "path" || verifChoose("required", 2) == 1, Content: openapi3.Content{mtName: mt}}
+	if param.Validate(context.Background()) != nil {
+		return
+	}
+	pool := []string{"1", `"a"`, "abc", `{"a":1}`, "[1]", "{", ""}
+	vals := []string{pool[verifChoose("v1", len(pool))]}
+	if verifChoose("second", 2) == 1 {
+		vals = append(vals, pool[verifChoose("v2", len(pool))])
+	}
+	input := &RequestValidationInput{Request: &http.Request{Method: "GET", Header: http.Header{}, URL: &url.URL{Path: "/"}}, QueryParams: url.Values{}, PathParams: map[string]string{},
+		Options: &Options{MultiError: verifNondetBool("multi"), SkipSettingDefaults: true}}
+	switch in {
+	case "query":
+		input.QueryParams["p"] = vals
+	case "header":
+		input.Request.Header["P"] = vals
+	case "path":
+		input.PathParams["p"] = vals[0]
+	case "cookie":
+		input.Request.Header["Cookie"] = []string{"p=" + vals[0]}
+	}
+	_ = ValidateParameter(context.Background(), input, param)
+	verifReach("end")
+}
